@@ -279,6 +279,18 @@ def do_match(ex, cre, subj, mode, node):
             return NONE
         gs = [ex.const_value(g) for g in m.groups()]
         return VMatch(VStr(m.group(0)), gs, cre.groupnames)
+    tc = ex.top_contract
+    absname = getattr(tc, 'abstract_regex', {}).get(cre.pattern) if tc is not None else None
+    if absname is not None:
+        # the pattern is kept abstract: match/no-match and the groups are uninterpreted
+        # functions of the subject (sound: any regex semantics is an instance)
+        ex.used_assumptions.add(f'abstract-regex:{absname} ({cre.pattern!r} kept uninterpreted in this contract)')
+        mt = z3.Function(f'rx_{absname}_matches', z3.StringSort(), z3.BoolSort())(subj.t)
+        if not ex.branch(mt):
+            return NONE
+        gl = [VStr(z3.Function(f'rx_{absname}_g{i + 1}', z3.StringSort(), z3.StringSort())(subj.t))
+              for i in range(cre.ngroups)]
+        return VMatch(VStr(z3.Function(f'rx_{absname}_g0', z3.StringSort(), z3.StringSort())(subj.t)), gl, cre.groupnames)
     ex.used_assumptions.add('A-REGEX: re patterns translated to z3 regexes (ASCII categories; any valid group decomposition)')
     lang = cre.language(mode)
     if not ex.branch(z3.InRe(subj.t, lang)):
@@ -391,7 +403,9 @@ def match_group(ex, m, args, node):
         if isinstance(a, VInt):
             i = a.concrete()
             if i is None:
-                ex.limit('symbolic group index', node)
+                n = len(m.groups)
+                ex.may_raise(z3.Or(a.t < 0, a.t > n), 'IndexError', node)
+                i = ex.choose([a.t == k for k in range(n + 1)])
         elif isinstance(a, VStr) and a.concrete() in m.names:
             i = m.names[a.concrete()]
         else:
